@@ -187,3 +187,12 @@ HARMLESS += [
  # defensive guard: after spin integration every index name occurs with one spin only
  {"id": "c15-h-restricted-collision", "prop": "C15", "file": _SO, "old": "            if new in idx:\n                raise RuntimeError(", "new": "            if False:\n                raise RuntimeError("},
 ]
+_SE = "adcgen/sort_expr.py"
+MUTANTS += [
+ {"id": "c10-bucket-overwrite", "prop": "C10", "file": _SE, "old": "        if d_blocks not in ret:\n            ret[d_blocks] = e.Expr(0, **term.assumptions)\n        ret[d_blocks] += term", "new": "        ret[d_blocks] = e.Expr(0, **term.assumptions)\n        ret[d_blocks] += term"},
+ {"id": "c10-drop-none", "prop": "C10", "file": _SE, "old": "        if not t_blocks:\n            t_blocks = (\"none\",)\n        if t_blocks not in ret:", "new": "        if not t_blocks:\n            continue\n        if t_blocks not in ret:"},
+ {"id": "c10-double-add", "prop": "C10", "file": _SE, "old": "        if d_idx not in ret:\n            ret[d_idx] = e.Expr(0, **term.assumptions)\n        ret[d_idx] += term", "new": "        if d_idx not in ret:\n            ret[d_idx] = e.Expr(0, **term.assumptions)\n            ret[d_idx] += term\n        ret[d_idx] += term"},
+ {"id": "c10-wrong-key", "prop": "C10", "file": _SE, "old": "                block = delta.space\n            else:\n                block = f\"{delta.space}_{spin}\"\n            d_blocks.extend", "new": "                block = delta.spin\n            else:\n                block = f\"{delta.space}_{spin}\"\n            d_blocks.extend"},
+ {"id": "c10-target-key", "prop": "C10", "file": _SE, "old": "                tensor_target = [s for s in tensor.idx if s in target]", "new": "                tensor_target = [s for s in tensor.idx if s not in target]"},
+ {"id": "c10-symmetry-sign", "prop": "C10", "file": "adcgen/expr_container.py", "old": "                symmetry[perms] = -1\n", "new": "                symmetry[perms] = +1\n"},
+]
